@@ -1,6 +1,6 @@
 (* C14: a byte that no primitive consumes is a barrier; a start production that ends in
    many_till(.., eof) cannot succeed when a barrier stands before the end of the text.  Proofs only. *)
-From SV Require Import Peg Bound.
+From SV Require Import Peg Bound BoundPk.
 From Coq Require Import Arith Lia.
 Local Open Scope nat_scope.
 
@@ -16,10 +16,13 @@ Variable bar : nat.
 Notation run := (run A prim act cond dirflag inp g).
 Notation pstate := (pstate A).
 
-(* no primitive that starts at or before the barrier consumes beyond it *)
-Hypothesis prim_stops : forall i a p n, p <= bar -> prim i a p = Some n -> p + n <= bar.
+(* no primitive that starts at or before the barrier consumes beyond it -- except look-ahead
+   primitives (the none_of behind a keyword), which stand only directly under peek / not *)
+Variable peekers : list N.
+Hypothesis prim_stops : forall i a p n, is_pk peekers i = false -> p <= bar -> prim i a p = Some n -> p + n <= bar.
+Hypothesis GP : forall n pr, nth_error g n = Some pr -> pk peekers (p_body pr) = true.
 
-Definition barrier := run_bd A prim act cond dirflag inp g bar prim_stops.
+Definition barrier := run_bd_pk A prim act cond dirflag inp g bar peekers prim_stops GP.
 
 (* many_till(e, eof) succeeds only at the end of the text *)
 Lemma manytill_eof_end e : forall fuel p rf st f q st',
@@ -66,7 +69,7 @@ Theorem strict_rejects n pr :
 Proof.
   intros En Ee Hb fuel cap aux f q st' E.
   assert (M0 : memo_bd A bar (mkPst A [] [] cap aux)) by (intros ? ? ? ? ? []).
-  pose proof (barrier fuel (FCall n) 0 [] _ M0 (Nat.le_0_l _)) as [_ B]. rewrite E in B. cbn [fst] in B.
+  pose proof (barrier fuel (FCall n) 0 [] _ eq_refl M0 (Nat.le_0_l _)) as [_ B]. rewrite E in B. cbn [fst] in B.
   (* the success ends at or before the barrier ... *)
   destruct fuel as [|fu]; [discriminate|]. cbn [Peg.run] in E. rewrite En in E.
   destruct (p_body pr) as [| | | | | | | | | | | |es t| | | |] eqn:Eb; try discriminate.
